@@ -23,6 +23,7 @@
 #include <unifex/sender_concepts.hpp>
 #include <unifex/sequence.hpp>
 #include <unifex/type_traits.hpp>
+#include <unifex/detail/verif_hooks.hpp>
 
 #include <algorithm>
 #include <atomic>
@@ -158,6 +159,7 @@ private:
     // prevent new work from being nested within this scope; by clearing the
     // scopeEndedBit, we cause try_record_start() to fail because the scope has
     // ended
+    UNIFEX_VERIF_YIELD("scope.es_fand");
     auto oldState =
         opState_.fetch_and(~scopeEndedBit, std::memory_order_acq_rel);
 
@@ -168,6 +170,7 @@ private:
   }
 
   friend void record_completion(async_scope* scope) noexcept {
+    UNIFEX_VERIF_YIELD("scope.rc_fsub");
     auto oldState = scope->opState_.fetch_sub(2u, std::memory_order_acq_rel);
 
     if (scope_ended(oldState) && use_count(oldState) == 1u) {
@@ -177,6 +180,7 @@ private:
   }
 
   [[nodiscard]] friend bool try_record_start(async_scope* scope) noexcept {
+    UNIFEX_VERIF_YIELD("scope.trs_load");
     auto opState = scope->opState_.load(std::memory_order_relaxed);
 
     do {
@@ -185,6 +189,7 @@ private:
       }
 
       UNIFEX_ASSERT(opState + 2u > opState);
+      UNIFEX_VERIF_YIELD("scope.trs_cas");
     } while (!scope->opState_.compare_exchange_weak(
         opState, opState + 2u, std::memory_order_relaxed));
 
